@@ -24,6 +24,10 @@ def probes(c: int, t: int = 0) -> list[dict[str, Any]]:
         {"op": "enter", "t": t, "c": c},
         {"op": "state", "t": t, "c": c},
         {"op": "getall", "t": t, "c": c, "ty": 0, "via": "method"},
+        # names no resource can have are still names: what decides is the state
+        {"op": "getnw", "t": t, "c": c, "ty": 0, "name": "db/main", "opt": True, "via": "method"},
+        {"op": "get", "t": t, "c": c, "ty": 0, "name": " a.b", "opt": False, "via": "method"},
+        {"op": "getnw", "t": t, "c": c, "ty": 0, "name": "", "opt": False, "via": "method"},
     ]
 
 
